@@ -191,6 +191,9 @@ func (x *Exec) instrWrites(ins ssa.Instruction, ws *WriteSet, visiting map[*ssa.
 		x.callWrites(&v.Call, ws, visiting)
 	case *ssa.Defer:
 		x.callWrites(&v.Call, ws, visiting)
+	case *ssa.Send, *ssa.Select:
+		nk, ek := x.logKeys("send")
+		ws.keys[nk], ws.keys[ek] = true, true
 	case *ssa.Go:
 		// asynchronous: dropped (documented)
 	}
@@ -206,6 +209,12 @@ func (x *Exec) callWrites(c *ssa.CallCommon, ws *WriteSet, visiting map[*ssa.Fun
 		if e, ok := modelEffects[key]; ok {
 			x.addEffectSpec(e, ws)
 			return
+		}
+		if impl := x.P.uniqueImpl(c.Value.Type()); impl != nil {
+			if m := x.P.prog.LookupMethod(impl, c.Method.Pkg(), c.Method.Name()); m != nil {
+				ws.add(x.effectsRec(m, visiting))
+				return
+			}
 		}
 		ws.all = true
 		ws.why = "invoke " + key
@@ -259,6 +268,26 @@ func (x *Exec) callWrites(c *ssa.CallCommon, ws *WriteSet, visiting map[*ssa.Fun
 		}
 		return
 	}
+	if k := fnKey(fn); k == "(*sync.Map).Store" || k == "(*sync.Map).Delete" || k == "(*sync.Map).LoadOrStore" || k == "(*sync.Map).LoadAndDelete" {
+		_, root, path, local := x.storeTarget(c.Args[0])
+		if !local {
+			for _, str := range []bool{false, true} {
+				pk, tk, rk, _ := x.smKeys(root, path, str)
+				ws.keys[pk], ws.keys[tk], ws.keys[rk] = true, true, true
+			}
+			// stored values are boxed: their types' object components may be written too
+			if len(c.Args) == 3 {
+				if mi, ok := c.Args[2].(*ssa.MakeInterface); ok {
+					if _, isPtr := mi.X.Type().Underlying().(*types.Pointer); !isPtr {
+						for _, kk := range x.keysUnder("H", mi.X.Type(), nil) {
+							ws.keys[kk] = true
+						}
+					}
+				}
+			}
+		}
+		return
+	}
 	// lock operations write the lock-set component of their (statically known) mutex
 	if k := fnKey(fn); strings.HasPrefix(k, "(*sync.Mutex).") || strings.HasPrefix(k, "(*sync.RWMutex).") {
 		if len(c.Args) == 1 {
@@ -285,11 +314,16 @@ func (x *Exec) contractWrites(ctr *Contract, fn *ssa.Function, ws *WriteSet, vis
 		ws.keys[nk], ws.keys[ek] = true, true
 	}
 	switch {
-	case ctr.Pure:
+	case ctr.Pure && len(ctr.Fresh) == 0:
 	case ctr.ModAll:
 		ws.all = true
 		ws.why = "modifies * of " + ctr.Key
 	case len(ctr.Modifies) > 0 || ctr.Trusted || fn == nil || len(fn.Blocks) == 0 || ctr.Ext:
+		for _, m := range ctr.Fresh {
+			for _, k := range x.modifiesKeys(m) {
+				ws.keys[k] = true
+			}
+		}
 		for _, m := range ctr.Modifies {
 			for _, k := range x.modifiesKeys(m) {
 				ws.keys[k] = true
@@ -398,6 +432,10 @@ func (x *Exec) modifiesKeys(m string) []string {
 	case strings.HasPrefix(m, "ghostlog."):
 		nk, ek := x.logKeys(strings.TrimPrefix(m, "ghostlog."))
 		return []string{nk, ek}
+	case strings.HasPrefix(m, "ghostbv."):
+		k := "G|" + strings.TrimPrefix(m, "ghostbv.")
+		x.keyInfo[k] = compInfo{sort: bvSort(64)}
+		return []string{k}
 	case strings.HasPrefix(m, "ghost."):
 		k := "G|" + strings.TrimPrefix(m, "ghost.")
 		x.keyInfo[k] = compInfo{sort: "Int"}
@@ -441,9 +479,15 @@ func (x *Exec) modifiesKeys(m string) []string {
 		return []string{k}
 	}
 	parts := strings.Split(m, ".")
-	t := x.lookupType(parts[0])
+	var t types.Type
+	if _, isAlias := x.P.cs.imports[parts[0]]; isAlias && len(parts) >= 2 && x.P.tpkg.Scope().Lookup(parts[0]) == nil {
+		t = x.lookupType(parts[0] + "." + parts[1])
+		parts = parts[1:]
+	} else {
+		t = x.lookupType(parts[0])
+	}
 	if t == nil {
-		panic(unsupported("modifies: unknown type %s", parts[0]))
+		panic(unsupported("modifies: unknown type %s", m))
 	}
 	path := x.fieldPath(t, parts[1:])
 	if isMap {
@@ -829,4 +873,49 @@ func (x *Exec) harmlessFuncValue(v ssa.Value) bool {
 		return ex.Index == 1
 	}
 	return false
+}
+
+// uniqueImpl: the single named type (T or *T) declared in the package's production files that
+// implements interface type t, or nil.
+func (P *Program) uniqueImpl(t types.Type) types.Type {
+	it, ok := t.Underlying().(*types.Interface)
+	if !ok || it.NumMethods() == 0 {
+		return nil
+	}
+	P.implMu.Lock()
+	defer P.implMu.Unlock()
+	if r, ok := P.implCache[t.String()]; ok {
+		return r
+	}
+	var found types.Type
+	n := 0
+	sc := P.tpkg.Scope()
+	for _, name := range sc.Names() {
+		tn, ok := sc.Lookup(name).(*types.TypeName)
+		if !ok || tn.IsAlias() {
+			continue
+		}
+		file := P.fset.Position(tn.Pos()).Filename
+		if strings.HasSuffix(file, "_test.go") || strings.HasSuffix(file, "_verif.go") {
+			continue
+		}
+		if _, isIface := tn.Type().Underlying().(*types.Interface); isIface {
+			continue
+		}
+		for _, cand := range []types.Type{tn.Type(), types.NewPointer(tn.Type())} {
+			if types.Implements(cand, it) {
+				found = cand
+				n++
+				break
+			}
+		}
+	}
+	if n != 1 {
+		found = nil
+	}
+	if P.implCache == nil {
+		P.implCache = map[string]types.Type{}
+	}
+	P.implCache[t.String()] = found
+	return found
 }
